@@ -32,6 +32,16 @@ Proof. split; [exact (proj1 ex_inv)|vm_compute; reflexivity]. Qed.
 (* structural edits never change any text *)
 Theorem C02_splice_keeps_texts : forall LF s tokens ref del_end p q s' r,
   1 <= LF -> Inv s -> ref_pos (abs s) ref p -> end_pos (abs s) del_end p q ->
-  valid_tokens (abs s) tokens p q ->
+  valid_tokens s tokens p q ->
   splice LF s tokens ref del_end = (s', r) -> forall t, txt s' t = txt s t.
-Proof. intros LF s tokens ref del_end p q s' r H1 H2 H3 H4 H5 H6. exact (proj2 (proj2 (proj2 (splice_spec LF s tokens ref del_end p q s' r H1 H2 H3 H4 H5 H6)))). Qed.
+Proof. intros LF s tokens ref del_end p q s' r H1 H2 H3 H4 H5 H6. exact (proj1 (proj2 (proj2 (proj2 (splice_spec LF s tokens ref del_end p q s' r H1 H2 H3 H4 H5 H6))))). Qed.
+
+(* the value / indent setters of token models are set_text (formatter value): only that token's characters
+   change, whatever the formatter *)
+Theorem C02_setter_frame : forall (V : Type) (fmt : V -> str) s t v s' r k, Inv s -> nth_error (abs s) k = Some t ->
+  setter fmt s t v = (s', r) ->
+  r = Ok tt /\ Inv s' /\ abs s' = abs s /\ txt s' t = fmt v /\ (forall u, u <> t -> txt s' u = txt s u) /\
+  printed s' = prefix_text s k ++ fmt v ++ concat (map (txt s) (skipn (S k) (abs s))) /\
+  (forall k' u, nth_error (abs s') k' = Some u ->
+     get_position s' u = Ok (advance pos0 (prefix_text s' k')) /\ get_index s' u = Ok (Z.of_nat k')).
+Proof. exact @setter_spec. Qed.
